@@ -197,6 +197,17 @@ pub fn eval(ctx: &mut Ctx, op: &str, args: &[Sexp]) -> Option<String> {
                     if format!("{}", o) != s {
                         ctx.oracle_fail("Display differs from to_pseudocode".into());
                     }
+                    // formatter flags with a width no wider than the rendering can add no padding
+                    let w = s.chars().count().saturating_sub(1) / 2;
+                    let flagged = crate::core_ops::guard(|| (format!("{:<w$}", o, w = w), format!("{:>w$}", o, w = w), format!("{:^w$}", o, w = w), format!("{:08}", o)));
+                    match flagged {
+                        Err(()) => ctx.oracle_fail("Display panicked under width / fill flags".into()),
+                        Ok((a, b, c, _)) => {
+                            if a != s || b != s || c != s {
+                                ctx.oracle_fail("Display with a narrow width differs from the plain rendering".into());
+                            }
+                        }
+                    }
                     // the public classification helper next to the formatter rides along
                     format!("ok {} prim={}", hex(s.as_bytes()), postcard_schema::schema::fmt::is_prim(&o) as u8)
                 }
@@ -391,6 +402,22 @@ pub fn gen_c16(r: &mut Rng, thorough: bool, out: &mut Vec<String>) {
     out.push(format!("keydiff element-kind {} (tuple (tuple bool) bool) (tuple (tuple bool bool))", hex(b"p")));
     for (i, s) in scale_schemas(r, if thorough { 1025 } else { 513 }, if thorough { 1025 } else { 300 }).iter().enumerate() {
         out.push(format!("key {} {}", hex(paths[i % 4].as_bytes()), show(s)));
+    }
+    // very deep chains (beyond any 12-bit counter), const vs owned hasher vs documented stream
+    for d in [4095usize, 4096, 4097, 5000] {
+        for kind in 0..3 {
+            let mut sch = O::U8;
+            for level in 0..d {
+                sch = match kind {
+                    0 => O::Option(Box::new(sch)),
+                    1 => O::Seq(Box::new(sch)),
+                    _ => O::Struct { name: "N".into(), data: postcard_schema::schema::owned::OwnedData::Struct(vec![postcard_schema::schema::owned::OwnedNamedField { name: format!("f{}", level % 7).into_boxed_str(), ty: sch }].into_boxed_slice()) },
+                };
+            }
+            out.push(format!("key {} {}", hex(b"deep"), show(&sch)));
+            let leafed = show(&sch).replace("u8", "i8");
+            out.push(format!("keydiff element-kind {} {} {}", hex(b"deep"), show(&sch), leafed));
+        }
     }
     // the public constructor for concrete types (hand list, C14 corpus types, seed-generated derive programs)
     for (idx, (_, schema_of, _)) in key_registry().iter().enumerate() {
